@@ -464,9 +464,11 @@ def robust_check(assertions, total_ms, stats=None):
                 s = z3.Then('simplify', 'purify-arith', 'qfnra-nlsat').solver()
                 s.add(*assertions)
             elif name == 'freshctx':
-                ctx = z3.Context()
-                s = z3.Solver(ctx=ctx)
-                s.add(*[a.translate(ctx) for a in assertions])
+                # same goal, re-parsed from its SMT-LIB text: different term ordering, different heuristic choices
+                s0 = z3.Solver()
+                s0.add(*assertions)
+                s = z3.Solver()
+                s.add(z3.parse_smt2_string(s0.to_smt2()))
             else:
                 s = z3.Solver()
                 if name.startswith('seed'):
@@ -554,7 +556,10 @@ class Explorer:
     def decide(self, cond):
         if self.frozen:
             raise HarnessError('branch on a symbolic value inside an oracle')
-        cond = z3.simplify(cond)
+        try:
+            cond = z3.simplify(cond)
+        except z3.Z3Exception:          # a late interrupt of an earlier, already finished query: harmless, once more
+            cond = z3.simplify(cond)
         if z3.is_true(cond):
             return True
         if z3.is_false(cond):
